@@ -296,7 +296,7 @@ STR_TIERS = {
     "thorough": (16, 4000, 60),
 }
 STR_MISMATCH_PROPS = {
-    ("strmodel", "valid_utf8"): ["C14"],
+    ("strmodel", "valid_utf8"): ["C14", "C16"],
     ("strmodel", "panics"): ["C14"],
     ("strmodel", "bytes"): ["C14"],
     ("strmodel", "lossy"): ["C14"],
@@ -330,9 +330,23 @@ BOX_TIERS = {
     "thorough": (16, 4000, 40),
 }
 BOX_MISMATCH_PROPS = {
-    ("boxmodel", "dropped"): ["C17", "C15"],
+    ("boxmodel", "dropped"): ["C17", "C15", "C16"],
     ("boxmodel", "given"): ["C17", "C15"],
 }
+
+
+def multi_run(fns):
+    """one run made of several engines' runs (reports keep their engine name)"""
+    def run(tier, seed, extra_tag=""):
+        out = {"reports": [], "summaries": [], "wall_s": 0, "cached": True}
+        for fn in fns:
+            r = fn(tier, seed, extra_tag=extra_tag)
+            out["reports"] += r["reports"]
+            out["summaries"] += r["summaries"]
+            out["wall_s"] += r.get("wall_s", 0)
+            out["cached"] = out["cached"] and r.get("cached", False)
+        return out
+    return run
 BOX_PROPS = ["C17"]
 
 
@@ -416,7 +430,7 @@ def engine_run(name, tiers, shard_fn, crash_prop, tier, seed, extra_tag=""):
     for r in results:
         for line in r["lines"]:
             if line.startswith("MISMATCH") or line.startswith("SPEC"):
-                reports.append({"mode": r["mode"], "trace": r["trace"], "line": line,
+                reports.append({"mode": r["mode"], "trace": r["trace"], "line": line, "engine": name,
                                 "seed": r["seed"], "maxops": r["maxops"]})
             elif line.startswith("SUMMARY"):
                 try:
@@ -424,7 +438,7 @@ def engine_run(name, tiers, shard_fn, crash_prop, tier, seed, extra_tag=""):
                 except Exception:
                     pass
         if r["status"] != "ok":
-            reports.append({"mode": r["mode"], "trace": r["trace"], "seed": r["seed"], "maxops": r["maxops"],
+            reports.append({"mode": r["mode"], "trace": r["trace"], "seed": r["seed"], "maxops": r["maxops"], "engine": name,
                             "line": "SPEC hid=? op=0 prop=%s pred=driver_%s detail=driver_status desc=[?] hdr=[?]" % (crash_prop, r["status"])})
     out = {"key": key, "tier": tier, "seed": seed, "wall_s": time.time() - t0, "reports": reports,
            "summaries": summaries, "cached": False, "outdir": outdir}
@@ -446,7 +460,8 @@ def reports_for(prop, run, table=None):
     spec, mism = [], []
     for r in run["reports"]:
         d = parse_report(r["line"])
-        d.update({"mode": r["mode"], "trace": r["trace"], "raw": r["line"], "seed": r["seed"], "maxops": r["maxops"]})
+        d.update({"mode": r["mode"], "trace": r["trace"], "raw": r["line"], "seed": r["seed"], "maxops": r["maxops"],
+                  "engine": r.get("engine")})
         if d["kind"] == "SPEC":
             if d.get("prop") == prop:
                 spec.append(d)
